@@ -468,7 +468,7 @@ impl<'a> Iterator for EFIMemoryAreaIter<'a> {
 
 impl ExactSizeIterator for EFIMemoryAreaIter<'_> {
     fn len(&self) -> usize {
-        self.entries
+        self.entries - self.i
     }
 }
 
